@@ -724,12 +724,106 @@ pub enum Profile {
     General,
     Validator, // C13: a validator is always installed, Enter at arbitrary points
     Malformed, // C17: arbitrary bytes, truncated sequences, all helper kinds, printer, type-ahead
+    History,   // C07: history navigation mixed with edits, multi-line entries and in-progress lines
+    Search,    // C08: incremental search keys, direction changes, backspaces, aborts, terminators
+    Complete,  // C14: scripted completer, Tab / Shift-Tab runs, aborts, terminators, undo probe
+}
+
+fn history_key(rng: &mut Rng, vi: bool, insert_mode: &mut bool, out: &mut Vec<String>) {
+    if !vi {
+        match rng.below(100) {
+            0..=17 => out.push("10".to_string()),     // C-p
+            18..=31 => out.push("0e".to_string()),    // C-n
+            32..=43 => out.push(rng.pick(&["1b5b41", "1b4f41"]).to_string()), // Up
+            44..=53 => out.push(rng.pick(&["1b5b42", "1b4f42"]).to_string()), // Down
+            54..=59 => out.push("1b3c".to_string()),  // M-<
+            60..=65 => out.push("1b3e".to_string()),  // M->
+            66..=79 => out.push(tok_char(*rng.pick(TEXT))),
+            80..=87 => out.push(rng.pick(&["01", "05", "02", "06", "7f", "04", "0b", "15", "17", "1f"]).to_string()),
+            88..=91 => {
+                out.push("16".to_string());
+                out.push("0a".to_string());
+            }
+            92..=94 => {
+                out.push("12".to_string());
+                out.push(tok_char(*rng.pick(&['a', 'b'])));
+            }
+            _ => out.push(rng.pick(&["1b62", "1b66", "1b5b48", "1b5b46"]).to_string()),
+        }
+    } else if *insert_mode {
+        match rng.below(100) {
+            0..=29 => out.push(tok_char(*rng.pick(TEXT))),
+            30..=44 => out.push(rng.pick(&["1b5b41", "1b5b42"]).to_string()),
+            45..=54 => {
+                out.push("16".to_string());
+                out.push("0a".to_string());
+            }
+            _ => {
+                // ESC glued to a command key (Alt-key = fast command mode)
+                let c = *rng.pick(b"kjkj-+hl0$");
+                out.push(format!("1b{:02x}", c));
+                *insert_mode = false;
+            }
+        }
+    } else {
+        match rng.below(100) {
+            0..=24 => out.push("6b".to_string()),
+            25..=44 => out.push("6a".to_string()),
+            45..=52 => out.push(rng.pick(&["2d", "2b", "10", "0e", "1b5b41", "1b5b42"]).to_string()),
+            53..=60 => {
+                out.push(format!("{:02x}", b'1' + rng.below(3) as u8));
+                out.push(rng.pick(&["6b", "6a"]).to_string());
+            }
+            61..=72 => out.push(format!("{:02x}", *rng.pick(b"hl0$wbxX"))),
+            73..=84 => {
+                out.push(format!("{:02x}", *rng.pick(b"iaAI")));
+                *insert_mode = true;
+            }
+            _ => out.push(rng.pick(&["64 64", "75", "70"]).replace(' ', " ")),
+        }
+    }
+}
+
+fn search_keys(rng: &mut Rng, out: &mut Vec<String>) {
+    out.push("12".to_string());
+    let k = rng.below(7);
+    for _ in 0..k {
+        match rng.below(10) {
+            0..=4 => out.push(tok_char(*rng.pick(&['a', 'b', 'é', ' ', '(', '.', '漢', '*']))),
+            5..=6 => out.push("12".to_string()),
+            7 => out.push("13".to_string()),
+            _ => out.push(rng.pick(&["7f", "08"]).to_string()),
+        }
+    }
+    match rng.below(8) {
+        0 | 1 => out.push("07".to_string()),
+        2 => out.push("1b".to_string()),
+        3 => out.push("0d".to_string()),
+        4 => out.push(rng.pick(&["01", "05", "02", "1b5b44", "10", "0e", "0b", "1f"]).to_string()),
+        5 => out.push("09".to_string()),
+        _ => {}
+    }
+}
+
+fn complete_keys(rng: &mut Rng, out: &mut Vec<String>) {
+    out.push(rng.pick(&["09", "09", "09"]).to_string());
+    let k = rng.below(6);
+    for _ in 0..k {
+        out.push(rng.pick(&["09", "09", "1b5b5a", "09"]).to_string());
+    }
+    match rng.below(8) {
+        0 | 1 => out.push("07".to_string()),
+        2 => out.push("1b".to_string()),
+        3 | 4 => out.push("1f".to_string()), // the undo probe
+        5 => out.push(rng.pick(&["61", "20", "7f", "01"]).to_string()),
+        _ => {}
+    }
 }
 
 fn random_helper(rng: &mut Rng, flags: &mut String, profile: Profile) -> String {
     let mut parts: Vec<String> = vec![];
-    if rng.chance(2, 3) {
-        let k = rng.below(4);
+    if profile == Profile::Complete || rng.chance(2, 3) {
+        let k = if profile == Profile::Complete { 1 + rng.below(4) } else { rng.below(4) };
         let cands: Vec<String> =
             (0..k).map(|_| rng.pick(&["ab", "abc", "abé", "b", "", "a b", "aZ", "漢a"]).to_string()).collect();
         parts.push(format!("C={}", enc_texts(&cands)));
@@ -804,13 +898,17 @@ pub fn gen_profile(ctx: &GenCtx, tag: &str, profile: Profile, sink: &mut dyn FnM
         let mut helper = String::from("-");
         let hprob = match profile {
             Profile::General => 3,
-            Profile::Validator => 1,
+            Profile::Validator | Profile::Complete => 1,
             Profile::Malformed => 2,
+            Profile::History | Profile::Search => 6,
         };
         if rng.chance(1, hprob) {
             helper = random_helper(&mut rng, &mut flags, profile);
         }
-        let nh = rng.below(4);
+        let nh = match profile {
+            Profile::History | Profile::Search => 1 + rng.below(5),
+            _ => rng.below(4),
+        };
         let hist: Vec<String> = (0..nh)
             .map(|_| {
                 let mut t = rand_text(&mut rng, 5, true);
@@ -846,6 +944,18 @@ pub fn gen_profile(ctx: &GenCtx, tag: &str, profile: Profile, sink: &mut dyn FnM
             }
             if profile == Profile::Validator && rng.chance(1, 5) {
                 toks.push(rng.pick(&["0d", "0d", "0a", "28", "29", "61", "5a"]).to_string());
+                continue;
+            }
+            if profile == Profile::History && rng.chance(3, 4) {
+                history_key(&mut rng, vi, &mut insert_mode, &mut toks);
+                continue;
+            }
+            if profile == Profile::Search && (!vi || insert_mode) && rng.chance(1, 2) {
+                search_keys(&mut rng, &mut toks);
+                continue;
+            }
+            if profile == Profile::Complete && (!vi || insert_mode) && rng.chance(1, 2) {
+                complete_keys(&mut rng, &mut toks);
                 continue;
             }
             if vi {
